@@ -225,7 +225,10 @@ fn path_from_args(
             // Only sexp in scope.
             let atom = allocator.atom(sexp);
             let v = number_from_u8(atom.as_ref());
-            if v <= bi_one() {
+            if v == bi_zero() {
+                // A nil in code evaluates to nil; it does not refer to the arguments.
+                Ok(sexp)
+            } else if v <= bi_one() {
                 Ok(new_args)
             } else {
                 let sexp = allocator.new_atom(&u8_from_number(v.clone() >> 1).to_vec())?;
